@@ -69,6 +69,14 @@ class NameBinder(NodeVisitor):
                     # Lambda function arguments can't be renamed without breaking keyword arguments
                     binding.disallow_rename()
 
+    def visit_AnnAssign(self, node):
+        if node.value is None and not node.simple and isinstance(node.target, ast.Name):
+            # `(name): annotation` - a parenthesised target without a value is not evaluated and does not bind the name
+            self.visit(node.annotation)
+            return
+
+        self.generic_visit(node)
+
     def visit_ClassDef(self, node):
         if node.name not in node.namespace.nonlocal_names:
             self.get_binding(node.name, node.namespace).add_reference(node)
